@@ -328,6 +328,7 @@ inline std::string vstr(const Vec& v) {
 // idmode 1: insert_boundary(2*pos, boundary[,dim])     explicit IDs, reused after a removal, first ID is 0
 // idmode 2: insert_boundary(3*count+2, ...)            explicit fresh IDs (count = insertions so far), never reused
 // idmode 3: insert_boundary(pos, boundary[,dim])       explicit IDs equal to the default ones
+// idmode 4: insert_boundary(pos + removals so far, ..)   explicit IDs; after a removal an ID comes back at another position
 struct Model {
   const Universe* U = nullptr;
   int p = 2;
@@ -335,6 +336,7 @@ struct Model {
   std::vector<int> cur;        // universe cell at each position
   std::vector<unsigned> ids;   // ID at each position
   unsigned counter = 0;        // insertions so far
+  unsigned removals = 0;       // removals (of an existing cell) so far
   unsigned id_hi = 0;          // 1 + largest ID ever used
 
   int n() const { return (int)cur.size(); }
@@ -342,6 +344,7 @@ struct Model {
     switch (idmode) {
       case 1: return 2u * (unsigned)cur.size();
       case 2: return 3u * counter + 2u;
+      case 4: return (unsigned)cur.size() + removals;
       default: return (unsigned)cur.size();
     }
   }
@@ -374,6 +377,7 @@ struct Model {
     if (cur.empty()) return;
     cur.pop_back();
     ids.pop_back();
+    ++removals;
   }
   int dim(int pos) const { return U->cells[cur[pos]].dim; }
   int max_dim() const {
@@ -607,13 +611,35 @@ inline long long& cnt(int i) { return g_sh->c[i]; }
 inline bool class_should_print(const std::string& cls, int cap = 5) {
   unsigned long long h = 1469598103934665603ull;
   for (unsigned char ch : cls) { h ^= ch; h *= 1099511628211ull; }
-  if (!h) h = 1;
+  if (!h) h = 1;  // same value as class_hash
   for (size_t k = 0; k < 256; ++k) {
     auto& e = g_sh->cls[(h + k) % 256];
     if (e.h == 0) e.h = h;
     if (e.h == h) return ++e.n <= cap;
   }
   return true;
+}
+
+inline unsigned long long class_hash(const std::string& cls) {
+  unsigned long long h = 1469598103934665603ull;
+  for (unsigned char ch : cls) { h ^= ch; h *= 1099511628211ull; }
+  return h ? h : 1;
+}
+// occurrences of a class so far over the whole process tree
+inline long long class_seen(const std::string& cls) {
+  unsigned long long h = class_hash(cls);
+  for (size_t k = 0; k < 256; ++k) {
+    auto& e = g_sh->cls[(h + k) % 256];
+    if (e.h == 0) return 0;
+    if (e.h == h) return e.n;
+  }
+  return 0;
+}
+// histories that call remove_last on an empty matrix carry a class suffix, unless the same class already occurred on
+// a history without such a call (then it is the same defect and keeps its plain class)
+inline std::string with_suffix(const std::string& cls, const std::string& suffix) {
+  if (suffix.empty() || class_seen(cls) > 0) return cls;
+  return cls + suffix;
 }
 
 inline void child_signal(int s) {
@@ -638,7 +664,7 @@ size_t run_isolated(size_t n, Run&& run, Describe&& describe, CrashCls&& crash_c
     if (pid < 0) { perror("fork"); exit(2); }
     if (pid == 0) {
       vf::g_probe_child = true;  // the parent reports
-      for (int s : {SIGSEGV, SIGABRT, SIGFPE, SIGBUS, SIGILL, SIGALRM}) signal(s, child_signal);
+      for (int s : {SIGSEGV, SIGABRT, SIGFPE, SIGBUS, SIGILL, SIGALRM, SIGPROF}) signal(s, child_signal);
       for (size_t k = next; k < n; ++k) {
         g_sh->cur = (long long)k;
         if (!run(k)) { g_sh->incomplete = 1; break; }
@@ -653,7 +679,7 @@ size_t run_isolated(size_t n, Run&& run, Describe&& describe, CrashCls&& crash_c
     long long k = g_sh->cur;
     if (k < 0 || (size_t)k >= n) { fprintf(stderr, "engine: child died outside a case\n"); exit(2); }
     int sig = g_sh->sig;
-    const char* kind = sig == SIGALRM ? "timeout" : sig == SIGSEGV ? "SIGSEGV" : sig == SIGABRT ? "abort" : sig == SIGFPE ? "SIGFPE"
+    const char* kind = (sig == SIGALRM || sig == SIGPROF) ? "timeout" : sig == SIGSEGV ? "SIGSEGV" : sig == SIGABRT ? "abort" : sig == SIGFPE ? "SIGFPE"
                        : sig == SIGBUS ? "SIGBUS" : sig == SIGILL ? "SIGILL" : "exit";
     std::string phase_now((const char*)g_sh->phase);
     std::string cls = crash_cls(phase_now, std::string(kind));
